@@ -236,7 +236,7 @@ func Violation(t TB, key, caseText, format string, args ...interface{}) bool {
 	}
 	msg := fmt.Sprintf(format, args...)
 	st.mu.Lock()
-	st.violations = append(st.violations, violation{Key: key, Msg: msg, Case: trunc(caseText, 4000)})
+	st.violations = append(st.violations, violation{Key: key, Msg: msg, Case: trunc(caseText, 200000)})
 	if len(st.violations) > 2000 { // shrinking re-reports; keep the tail
 		st.violations = st.violations[len(st.violations)-1000:]
 	}
